@@ -57,7 +57,8 @@ def rand_value(rng, types, t, depth):
     if t == "address":
         return bytes(rng.getrandbits(8) for _ in range(20))
     if t == "string":
-        return rng.choice(["", "hello", "Hello, Bob!", "é€𝔘", "a" * 40, "\u0000x", "line\nbreak \"quoted\""])
+        return rng.choice(["", "hello", "Hello, Bob!", "é€𝔘", "a" * 40, "\u0000x", "line\nbreak \"quoted\"",
+                           "0x", "0xdeadbeef", "0xDEADBEEF", "0x" + "ab" * 20, "0x" + "cd" * 32, "123", "-5", "true", "null", "[]", "0x0", "0X12"])
     if t == "bytes":
         return bytes(rng.getrandbits(8) for _ in range(rng.choice([0, 1, 31, 32, 33, 100])))
     if pyref.eip712_base(t) is None:
@@ -65,7 +66,10 @@ def rand_value(rng, types, t, depth):
             return bytes(rng.getrandbits(8) for _ in range(int(t[5:])))
         if t.startswith("uint"):
             n = int(t[4:])
-            return rng.choice([0, 1, (1 << n) - 1, 1 << (n - 1), rng.getrandbits(n)])
+            opts = [0, 1, (1 << n) - 1, 1 << (n - 1), rng.getrandbits(n)]
+            if n >= 56:  # integers above 2^53 that are not doubles (they are often written as bare JSON numbers)
+                opts += [rng.randrange(1 << 53, min(1 << n, 1 << 64)) | 1, (1 << 53) + 1, min(1 << n, 1 << 64) - 1]
+            return rng.choice(opts)
         n = int(t[3:])
         return rng.choice([0, 1, -1, (1 << (n - 1)) - 1, -(1 << (n - 1)), rng.getrandbits(n - 1), -rng.getrandbits(n - 1)])
     return {mn: rand_value(rng, types, mt, depth + 1) for mn, mt in types[t]}
@@ -74,7 +78,7 @@ def rand_value(rng, types, t, depth):
 def spell_number(rng, v):
     opts = ["dec", "hex"]
     if -(1 << 63) <= v < (1 << 64):
-        opts.append("int")
+        opts += ["int", "int"]
     if abs(v) < 10 ** 14:  # json.dumps writes "<v>.0": keep the written significand within 15 digits
         opts.append("float")
     how = rng.choice(opts)
